@@ -14,6 +14,7 @@ func init() {
 		Rules: func(r *Run) {
 			ruleMO(r, 10)
 			rulePVGo(r)
+			ruleNoInPlaceValueMutation(r, []string{enginePkg, metricPkg}, 3)
 		},
 	})
 }
